@@ -8,7 +8,12 @@
 //	        DisableHooks/IsUpgrade varied; deterministic template vocabulary only) rendered through
 //	        a client-only dry-run action.Install (the `helm template` path) and through engine.Render:
 //	        repeated, re-loaded from archive / shuffled archive / directory, under permuted
-//	        environment variables, working directories and flipped canary files.
+//	        environment variables, working directories and flipped canary files; and again right
+//	        after a render that FAILED in the same process (an unrelated chart, or the chart itself
+//	        with a failing template), the failing execution cut short at 9 kinds of site (top level,
+//	        inside an included helper before / after output, nested include, tpl, include from tpl,
+//	        NOTES.txt, subchart helper, unparsable manifest) in 5 ways; what the failing render
+//	        printed before it failed carries canaries (failing.go).
 //	reach   templates that try to reach out: env / expandenv (must not exist), getHostByName (""
 //	        unless EnableDNS), .Files.* with ../, absolute and cwd-relative paths, lookup in
 //	        client-only mode against a reachable simulated cluster holding a canary object.
@@ -57,7 +62,7 @@ func init() {
 	core.Register(&core.Prop{
 		ID:    "C05",
 		Level: "exploration",
-		Rule: "seeded chart trees (root + 0-3 subcharts, listed/unlisted, depth <= 2; 2-7 template files per chart with 1-3 documents built from 30 template constructs; helpers with same-named defines in several charts; files/, crds/, NOTES.txt; random SubNotes/IncludeCRDs/DisableHooks/IsUpgrade and 0, 1 or 2 extra --api-versions entries, printed by the templates through .Capabilities.APIVersions.Has / len) each rendered >= 20 times: base, repeats from a fresh in-memory load, repeated dry-run installs and ToRenderValues+engine.Render repeats on ONE chart object, renders interleaved with client-only renders of an unrelated chart on another configuration with another --api-versions value (incl. a plain dry-run re-using the capabilities cached on the first configuration) (templates rewrite elements of default lists in place and pass a trail through .Values), reload from archive / shuffled archive / directory, permuted environment, changed cwd and host files; 18 reach-out probes x 2 load forms; 12 $ref spellings x 4 host-document states x 2 entry points; concurrent renders under the race detector; one strace-monitored batch. " +
+		Rule: "seeded chart trees (root + 0-3 subcharts, listed/unlisted, depth <= 2; 2-7 template files per chart with 1-3 documents built from 30 template constructs; helpers with same-named defines in several charts; files/, crds/, NOTES.txt; random SubNotes/IncludeCRDs/DisableHooks/IsUpgrade and 0, 1 or 2 extra --api-versions entries, printed by the templates through .Capabilities.APIVersions.Has / len) each rendered >= 20 times: base, repeats from a fresh in-memory load, repeated dry-run installs and ToRenderValues+engine.Render repeats on ONE chart object, renders interleaved with client-only renders of an unrelated chart on another configuration with another --api-versions value (incl. a plain dry-run re-using the capabilities cached on the first configuration) (templates rewrite elements of default lists in place and pass a trail through .Values), reload from archive / shuffled archive / directory, permuted environment, changed cwd and host files, and 2+2 renders (install / engine.Render) each made right after a FAILING render of an unrelated chart or of the chart itself plus a failing template (execution cut short at top level / inside an included helper before or after it produced output / in a nested include / in tpl / in an include called from tpl / in NOTES.txt / in a subchart helper / by an unparsable manifest; by required, fail, field of a scalar, undefined template or index out of range; its partial output carries canaries) and compared with the clean base render; 18 reach-out probes x 2 load forms; 12 $ref spellings x 4 host-document states x 2 entry points; concurrent renders under the race detector; one strace-monitored batch. " +
 			"distinct_nontrivial counts distinct chart shapes (subchart listing, depth, flags, template-file / notes / crd / hook buckets, number of construct kinds) of charts with >= 2 template files and (>= 1 map-ranging construct or >= 2 notes/CRD sources), plus one key per reach-out probe and per $ref spelling.",
 		Assumptions: []string{
 			"client-only dry-run action.Install is the `helm template` code path; engine.Render is the engine entry point",
@@ -237,9 +242,15 @@ func post(a *core.Agg) string {
 	if msg := postStrace(a); msg != "" {
 		return msg
 	}
-	for _, k := range []string{"renders_compared", "reloads", "env_permutations", "cwd_permutations", "canary_probes", "reach_out_probes", "schema_validations_with_flipped_host_document", "schema_positive_controls", "concurrent_installs_compared", "concurrent_engine_renders_compared", "engine_renders_compared", "same_object_installs_compared", "interleaved_renders_compared"} {
+	for _, k := range []string{"renders_compared", "reloads", "env_permutations", "cwd_permutations", "canary_probes", "reach_out_probes", "schema_validations_with_flipped_host_document", "schema_positive_controls", "concurrent_installs_compared", "concurrent_engine_renders_compared", "engine_renders_compared", "same_object_installs_compared", "interleaved_renders_compared",
+		"renders_after_failed_render_compared", "engine_renders_after_failed_render_compared"} {
 		if a.Stats[k] == 0 {
 			return "monitor counter " + k + " is zero"
+		}
+	}
+	for _, site := range failSites {
+		if a.Stats["failed_in_between_site_"+site] == 0 {
+			return "no failing render in between was cut short at site " + site
 		}
 	}
 	return ""
